@@ -132,6 +132,15 @@ func (s Shadow) Value() string   { return fmt.Sprintf("method-value-%d", s.K) }
 func (s *Shadow) Sum() string    { return "ptr-method-sum" }
 func (s Shadow) Nothing() string { return "" }
 
+// PtrOnly has methods on the pointer only (its value method set is empty).
+type PtrOnly struct {
+	N int
+	X string
+}
+
+func (p *PtrOnly) Double() int  { return 2 * p.N }
+func (p *PtrOnly) Pair() string { return fmt.Sprintf("(%d,%s)", p.N, p.X) }
+
 func handObjects() []interface{} {
 	b := Base{ID: 7, Title: "bt", hid: "h"}
 	top := Top{Mid: Mid{Base: b, Level: 3}, Name: "top", Title: "tt"}
@@ -156,6 +165,7 @@ func handObjects() []interface{} {
 		OnlyMethods{5}, &OnlyMethods{6}, Gamma{X: 7, Y: 1}, &Gamma{X: 9, Y: 9}, Base{ID: 70, Title: "other"}, &Base{ID: 71}, Top{Name: "top2"}, Alpha{9, "nine", false},
 		Doc{Tracking: Tracking{Stamp: Stamp{ID: "trk", At: 5}, Source: "src"}, Record: Record{ID: "rec", Name: "rname"}, Author: Author{Name: "aname", Mail: "m@x"}, Title: "T", Lang: "en", Pages: 3},
 		&Doc{Tracking: Tracking{Stamp: Stamp{ID: "trk2", At: 6}}, Record: Record{ID: "rec2"}, Lang: "de", Draft: true},
+		PtrOnly{N: 3, X: "v"}, &PtrOnly{N: 4, X: "p"},
 		Shadow{EmbV: EmbV{Value: 3, Sum: "field-sum", Scale: 1.5}, K: 1}, &Shadow{EmbV: EmbV{Value: 4, Sum: "field-sum-2"}, K: 2},
 	}
 }
